@@ -527,7 +527,7 @@ def range_cells(pr, empty="E"):
                 out[(sr + i, sc + j)] = v
     return out
 
-FIXTURE_DIR = "/repo/tests"
+FIXTURE_DIR = os.path.join(os.environ.get("VERIF_REPO", REPO), "tests")
 def fixtures(exts):
     out = []
     for f in sorted(os.listdir(FIXTURE_DIR)):
@@ -535,6 +535,16 @@ def fixtures(exts):
         if e in exts:
             out.append((e, os.path.join(FIXTURE_DIR, f)))
     return out
+
+def fixture_report(ctx, name, status, detail=None):
+    """Corpus rule (audit 2, pattern 2): a repository fixture that a check runs through a model is
+    accounted for in the evidence BY NAME under its status — "agree", "unmodelled" (the model
+    declines the input: listed with the reason, never silently skipped), or whatever else the
+    check distinguishes.  Evidence: coverage.fixtures = {status: [name (detail), ...]}; the input
+    distribution gets fixture:<status> counts."""
+    rep = ctx.extra.setdefault("fixtures", {})
+    rep.setdefault(status, []).append(name if not detail else "%s (%s)" % (name, detail))
+    ctx.count("fixture:" + status)
 
 def fmt_of_ext(e):
     return {"xlsx": "xlsx", "xlsm": "xlsx", "xlam": "xlsx", "xlsb": "xlsb", "xls": "xls", "xla": "xls", "ods": "ods"}.get(e)
